@@ -140,7 +140,7 @@ RangeStart(s, heap, flags) ==
     [] s.kind = "int"    -> [idx |-> 0, n |-> heap.n]
     [] s.kind = "int0"   -> [idx |-> 0, n |-> heap.n0]
     [] s.kind = "map1"   -> [idx |-> 0, pairs |-> heap.m1]
-    [] s.kind = "chan"   -> [idx |-> 0]
+    [] s.kind \in {"chan", "iter"} -> [idx |-> 0]
 \* next pair: [ok, k, v]
 RangeNext(s, st, heap, flags) ==
   CASE s.kind = "slice"  -> IF st.idx < st.len THEN [ok |-> TRUE, k |-> st.idx, v |-> heap.s.cells[st.idx + 1]] ELSE [ok |-> FALSE, k |-> 0, v |-> 0]
@@ -260,6 +260,16 @@ Run(i, w) ==
   ELSE IF top.t = "range" THEN                       \* next iteration of a range loop
      LET w1 == Tick(w) IN
      IF Panicked(w1) THEN [st |-> "panic", w |-> w1]
+     \* kind "iter":  for k := range it  over the local iterator (instance 2): one advance of it per iteration
+     ELSE IF top.s.kind = "iter" THEN
+       LET r == Adv(2, w1) IN
+       IF Panicked(r.w) THEN [st |-> "panic", w |-> r.w]
+       ELSE IF ~r.ok THEN Run(i, SetK(r.w, i, rest))
+       ELSE LET cur == r.w.cos[2].cur
+                ck == IF top.s.kf = "def" THEN Alloc(r.w, cur) ELSE [id |-> 0, w |-> r.w]
+                w2 == IF top.s.kf = "asg" THEN Set(ck.w, c.penv, "kk", cur) ELSE ck.w
+                benv == [top.env EXCEPT !.k = CASE top.s.kf = "def" -> ck.id [] top.s.kf = "asg" -> c.penv.kk [] OTHER -> c.penv.none] IN
+            Run(i, SetK(w2, i, <<[t |-> "seq", ss |-> top.s.body \o <<EndBody>>, env |-> benv], top>> \o rest))
      ELSE LET nx == RangeNext(top.s, top.st, c.heap, w.flags) IN
        IF ~nx.ok THEN Run(i, SetK(w1, i, rest))
        ELSE LET fr == [top EXCEPT !.st.idx = @ + 1]
